@@ -34,7 +34,8 @@ mkdir -p $(dirname $place)
 demos=$(ls $mdir/*_test.go 2>/dev/null)
 cp $mdir/demo_test.go $place 2>/dev/null || cp $demos $(dirname $place)/
 pkg=./$(dirname $place)
-with=$(go test -count=1 $pkg 2>&1 | grep -c '^--- FAIL\|^FAIL\|^panic')
+names=$(grep -ho '^func Test[A-Za-z0-9_]*' $mdir/*_test.go | sed 's/^func //' | sort -u | tr '\n' '|' | sed 's/|$//')
+with=$(go test -count=1 -run "^($names)\$" $pkg 2>&1 | grep -c '^--- FAIL\|^FAIL\|^panic')
 git apply -R $mdir/patch.diff
-without=$(go test -count=1 $pkg 2>&1 | grep -c '^--- FAIL\|^FAIL\|^panic')
+without=$(go test -count=1 -run "^($names)\$" $pkg 2>&1 | grep -c '^--- FAIL\|^FAIL\|^panic')
 res "suite_with_change=$suite${fails:+ (last failing: $fails)} demo_with_change_failmarks=$with demo_without_change_failmarks=$without"
